@@ -702,6 +702,7 @@ pub fn run(tier: &str, seed: u64, out: &Path) -> i32 {
     }
     // ---- 6. Indent::to_string* / Shape::to_string_with_newline ------------------------------------
     shape_corr::indent_string_cases(&mut o, &mut rng, thorough);
+    crate::missed_corr::cases_c08(&mut o, &mut rng, thorough);
     // enumerated model-vs-code cases named by the theorems' counterexamples
     {
         let t = "' \n'\"'\" \n";
@@ -808,6 +809,29 @@ pub fn run(tier: &str, seed: u64, out: &Path) -> i32 {
         }
         o.count(["e2e:input:LF", "e2e:input:CRLF", "e2e:input:mixed"][term]);
         inputs.push(Inp { name: format!("blank{}", k), src, cfg, blank_upper: Some(upper), hard_tabs, has_token: true });
+    }
+    // verbatim copies with their own terminators: a skipped item (first in the file, or after other items) whose lines end in
+    // CR CR LF (rustc's source map leaves CR LF of it, which lands in a buffer whose other lines end in LF), the rest of the file LF
+    // or CRLF: every emitted terminator must still be in the requested style
+    for k in 0..(if thorough { 400 } else { 80 }) {
+        let inner = ["\r\r\n", "\r\n", "\n"][rng.below(2)];
+        let outer = if rng.chance(1, 3) { "\r\n" } else { "\n" };
+        let skipped = format!("#[rustfmt::skip]{t}fn  s{k}( ) {{{t}    let x  =  1;{t}    let  y = 2 ;{t}}}{t}", t = inner, k = k);
+        let plain = |i: usize| format!("fn  p{i}( a:u32 ) {{{t}let z=a;{t}}}{t}", i = i, t = outer);
+        let mut src = String::new();
+        let first = rng.chance(1, 2);
+        if first {
+            src.push_str(&skipped);
+        }
+        for i in 0..rng.range(1, 3) {
+            src.push_str(&plain(i));
+        }
+        if !first || rng.chance(1, 2) {
+            src.push_str(&skipped.replace(&format!("s{}", k), &format!("t{}", k)));
+            src.push_str(&plain(9));
+        }
+        inputs.push(Inp { name: format!("verbatim-terminators{}", k), src, cfg: vec![], blank_upper: None, hard_tabs: false, has_token: true });
+        o.count("e2e:input:verbatim-copy-with-CR-CR-LF");
     }
     // jobs: every input under Unix and Windows, plus Native or (first terminator LF only) Auto
     let mut jobs: Vec<Job> = vec![];
